@@ -4,8 +4,7 @@ usage: python3 tools_eval_seeded.py <dir with patch.diff demo.py meta.json> [--n
 
 1. confirmation in a scratch worktree of /repo (outside /repo and /verif, removed afterwards):
    demo passes without the patch, fails with it, the unedited suite passes with it;
-2. detection: the patch is applied to /repo itself, every quick check is run, and /repo is
-   restored straight afterwards (git checkout -- . ; git clean for new files listed in the patch).
+2. detection: every quick check is run with --root <the patched scratch worktree>.
 Prints a JSON summary.
 """
 import json
@@ -56,27 +55,17 @@ def main():
             rc, o = sh(f"timeout 3000 {PY} -m pytest -q -p no:cacheprovider --timeout=900 -n 12 src/grid/tests 2>&1 | tail -3",
                        cwd=wt, env=env, timeout=3100)
             out["suite_tail"] = o.strip().splitlines()[-1] if o.strip() else ""
-    finally:
-        sh(f"git -C /repo worktree remove --force {wt}")
-    # detection on /repo itself
-    rc, o = sh("git -C /repo status --porcelain --untracked-files=no")
-    assert o.strip() == "", "tracked files of /repo are modified: " + o
-    rc, o = sh(f"git -C /repo apply --whitespace=nowarn {patch}")
-    assert rc == 0, o
-    det = {}
-    try:
+        # detection: the checks are pointed at the patched scratch worktree (equivalent to applying
+        # the patch to /repo and restoring it, without disturbing concurrent work on /repo)
+        det = {}
         lst = props or subprocess.run("./check --list", shell=True, cwd="/verif", capture_output=True, text=True).stdout.split()
         for p in lst:
-            rc, o = sh(f"GRIDLINT_NO_EVIDENCE=1 ./check {p} --tier quick", cwd="/verif", timeout=600)
+            rc, o = sh(f"GRIDLINT_NO_EVIDENCE=1 ./check {p} --tier quick --root {wt}", cwd="/verif", timeout=600)
             if rc != 0:
                 lines = [ln for ln in o.splitlines() if ln.startswith("VIOLATION") or ln.startswith("  rule=") or "ANALYSIS-ERROR" in ln]
                 det[p] = {"rc": rc, "lines": lines[:6]}
     finally:
-        sh("git -C /repo checkout -- .")
-        rc, o = sh("git -C /repo status --porcelain")
-        new = [ln[3:] for ln in o.splitlines() if ln.startswith("??") and "_version.py" not in ln]
-        for f in new:
-            sh(f"rm -rf /repo/{f}")
+        sh(f"git -C /repo worktree remove --force {wt}")
     out["detected_by"] = det
     print(json.dumps(out, indent=1))
     return 0
